@@ -156,6 +156,11 @@ pub fn curated() -> Vec<(&'static str, Spec, bool)> {
         pats.push(s("[ \n]+"));
         add("many_tokens", true, pats);
     }
+    // a look-ahead pattern next to one that continues on every byte the assertion refuses (the state
+    // after the prefix has an edge for all 256 bytes, but not all of them lead to an accept)
+    add("la_refused_cont", true, vec![r(r"r(?-u:\b)"), r("r[0-9A-Za-z_]!"), r("[a-z?]").prio(1)]);
+    add("la_refused_cont2", true, vec![r("if(?m:$)"), r("if[^\\n]x"), r("[a-z ]").prio(1), t("\n")]);
+    add("la_refused_cont3", false, vec![r(r"k(?-u:\B)"), r("k[^0-9A-Za-z_];"), Pat::bregex(b"[\\x00-\\xff]").prio(1)]);
     // skips recognised by a late-accept state (the skip ends in a look-ahead assertion)
     add("skip_la_eol", true, vec![s("//[^\n]*(?m:$)").greedy(), r("[a-z]+"), t("\n"), t("/")]);
     add("skip_la_end", true, vec![s("#[a-z]*$"), r("[a-z]+"), t("#").prio(1)]);
